@@ -32,8 +32,8 @@ static const char *pr_names[] = { "pull", "sub", "bus", "pair0", "xrep" };
 enum { PS_PUSH, PS_PAIR0, PS_XREQ, PS_N };
 static const char *ps_names[] = { "push", "pair0", "xreq" };
 
-enum { A_NONE, A_CANCEL, A_ABORT, A_STOP, A_CLOSE, A_FREE, A_NACTS };
-static const char *act_names[] = { "none", "cancel", "abort", "stop", "close", "free" };
+enum { A_NONE, A_CANCEL, A_ABORT, A_STOP, A_CLOSE, A_FREE, A_NACTS, A_SUPERSEDE };
+static const char *act_names[] = { "none", "cancel", "abort", "stop", "close", "free", "?", "supersede" };
 
 #define ABORT_CODE NNG_EPERM
 #define SKIPN 48
@@ -817,6 +817,26 @@ actor_thread(void *arg)
 			check_not_running(r, "free");
 			vf_stat("free_in_flight", 1);
 			break;
+		case A_SUPERSEDE: {
+			// REQ context: a new request while the send of the previous one is
+			// still pending.  The pending send is legitimately ended with
+			// NNG_ECANCELED ("a new request cancels the old one") - even when
+			// the new one is then refused (non-blocking, no room) - and it has
+			// completed for good: whatever closes the context later must not
+			// complete it again.  (Body word 0: ignored by the conservation table.)
+			nng_msg *m;
+			if (nng_msg_alloc(&m, 0) != 0) vf_harness_fail("msg alloc");
+			nng_msg_append_u32(m, 0x80000000u | (uint32_t) best);
+			nng_msg_append_u32(m, 0);
+			atomic_store(&r->cancel_issued, 1);
+			atomic_fetch_add(&r->cancels_begun, 1);
+			int srv = nng_ctx_sendmsg(cx->ctx[best], m, NNG_FLAG_NONBLOCK);
+			atomic_fetch_add(&r->cancels_done, 1);
+			if (srv != 0) nng_msg_free(m);
+			vf_stat(srv == 0 ? "supersede_accepted" : "supersede_refused", 1);
+			vf_class("supersede/%s/%s", srv == 0 ? "accepted" : nng_strerror(srv), atomic_load(&r->n_cb) > 0 ? "after-completion" : "while-pending");
+			break;
+		}
 		case A_CLOSE:
 			for (int i = 0; i < cx->nrec; i++) atomic_store(&cx->rec[i].close_issued, 1);
 			switch (cx->kind) {
@@ -1412,6 +1432,9 @@ run_case(long idx, vf_rng *r)
 		if (p.act[i] == A_FREE && cx->kind == K_SOCKSEND) p.act[i] = A_STOP; // (its conservation table reads the record later)
 		if (p.act[i] == A_FREE && a->nocb) p.act[i] = A_STOP; // (its waiter thread sits in nng_aio_wait)
 		if (p.act[i] == A_FREE) a->resubmits_left = 0; // an application does not re-arm an aio it is freeing
+		// REQ context send: a superseding (mostly refused) request first, a
+		// terminating action after it
+		bool supersede = cx->kind == K_REQSEND && !mixed_batch && vf_chance(r, 1, 3);
 		// around the nominal instant (or at once / pre-start)
 		int asel = (int) vf_below(r, 5);
 		p.act_at_us[i] = asel == 0 ? 0 : asel == 1 ? (int) vf_below(r, 300) : (int) (base_ms * 1000 + (int) vf_below(r, 3000) - 1500);
@@ -1429,6 +1452,14 @@ run_case(long idx, vf_rng *r)
 			p.act2[i]       = a2;
 			p.act2_at_us[i] = p.act_at_us[i] + (int) vf_below(r, 400) - 200;
 			if (p.act2_at_us[i] < 0) p.act2_at_us[i] = 0;
+		}
+		if (supersede) {
+			// act: the superseding send; act2: what ends the context / the aio afterwards
+			int after       = p.act[i] == A_NONE || p.act[i] == A_FREE ? A_CLOSE : p.act[i];
+			p.act[i]        = A_SUPERSEDE;
+			a->resubmits_left = vf_chance(r, 1, 2) ? 0 : a->resubmits_left;
+			p.act2[i]       = vf_chance(r, 2, 3) ? A_CLOSE : after;
+			p.act2_at_us[i] = p.act_at_us[i] + (int) vf_range(r, 200, 3000);
 		}
 		if (mixed_batch && a->kind == K_SLEEP) {
 			p.act[i]       = vf_chance(r, 2, 3) ? A_CANCEL : A_STOP;
